@@ -4,6 +4,7 @@ import itertools
 import warnings
 from fractions import Fraction as F
 
+import common as C
 from props import _units as X
 from props.c12 import shape
 
@@ -309,6 +310,8 @@ def run_pre(q, pre, log):
                 q.clear_unit_definitions()
             elif st[0] == "setting":
                 apply_setting(q, st[1], st[2])
+            elif st[0] == "fresh":
+                pass
             else:
                 v = X.units_from_json(st[1])
                 if st[2] == "derived":
@@ -350,7 +353,10 @@ def base_value(route):
 
 def observe(q, u, frac, route, arrays, faults=True, pre=()):
     out = {"route": route}
-    X.reset(q)
+    if pre and list(pre[0]) == ["fresh"] and X.PROCESS["virgin"]:
+        X.PROCESS["virgin"] = False     # the case starts a process: nothing is requested before it
+    else:
+        X.reset(q)
     if pre:
         assert pre_in_domain(pre)
         out["pre_log"] = []
@@ -473,6 +479,8 @@ def pre_text(pre):
             out.append("set_unit_style({})".format("FRACTION" if st[1] else "EXPONENTS"))
         elif st[0] == "clear":
             out.append("clear_unit_definitions()")
+        elif st[0] == "fresh":
+            out.append("(new process)")
         elif st[0] == "setting":
             out.append("set_{}({})".format(st[1], "PrintStyle." + st[2][5:] if str(st[2]).startswith(
                 "enum:") else repr(st[2])))
@@ -662,6 +670,7 @@ def run(ctx, cases, ref=False, use_model=True):
     failures, nontriv, samples = [], set(), []
     dist = collections.Counter()
     same = 0
+    room = None
     for (u, frac, route, arrays, pre), o, a, b in zip(cases, obs, mp, ms):
         if pre:
             dist["after a history"] += 1
@@ -691,12 +700,23 @@ def run(ctx, cases, ref=False, use_model=True):
             dist["nontrivial"] += 1
         if a and "s" in a and a["s"] == o.get("s"):
             same += 1
-        failures += judge(u, frac, o, a, b, pre)
+        fs = judge(u, frac, o, a, b, pre)
+        if not fs and pre and list(pre[0]) == ["fresh"]:
+            # the same case where it belongs: in a process in which nothing happened before it
+            room = room or C.CleanRoom("props.c13")
+            ans = room.replay({"case": {"u": X.units_json(u), "frac": frac, "route": route,
+                                        "pre": [list(st) for st in pre]}})
+            dist["cases executed in a new process (no reset before them)"] += 1
+            if ans.get("fails") and ans.get("failures"):
+                fs = [dict(ans["failures"][0], reproduces_alone=True, carries_history=True)]
+        failures += fs
         if len(samples) < 5 and len(u) > 1 and "s" in o:
             samples.append({"units": X.show(tuple(u)), "style": "fraction" if frac else "exponents",
                             "route": route, "printed": o["s"], "assign": o.get("assign"),
                             "model_string": a["s"] if a and "s" in a else None})
     dist["model string identical to implementation string"] = same
+    if room:
+        room.close()
     return {"evaluations": len(cases), "nontrivial": nontriv, "failures": failures,
             "samples": samples, "distribution": dict(dist)}
 
@@ -767,6 +787,11 @@ def gen_cases(rng, n, arrays_every=4, tags=None):
                 continue
             c = c[:4] + (pre,)
             tags["settings unrelated to units in force at the judged print"] += 1
+        if rng.random() < 0.05:
+            # the case starts a NEW PROCESS (no reset of the harness before it): run in a fork of a
+            # fresh interpreter as well (state the library sets up at import time)
+            c = c[:4] + ([["fresh"]] + [list(st) for st in c[4]],)
+            tags["case starts a new process"] += 1
         out.append(c)
     multi = [c for c in out if len(c[0]) >= 3 and not c[4]]
     for k in range(min(len(multi), max(12, n // 40))):
